@@ -29,7 +29,7 @@ func init() {
 		Assumptions: []string{
 			"drpcsignal.Signal is first-set-wins (C19 decides its internals)",
 		},
-		Rules: []Rule{
+		Rules: append([]Rule{
 			{ID: "C03.R1", Doc: "state signals (send/recv/term/cancel) are Set, and terminate is called, only with Stream.mu held; fin and ctx.sig only in checkFinished", Run: c03r1},
 			{ID: "C03.R2", Doc: "terminal emissions are check-then-act under Stream.mu (nothing emitted after termination; idempotent terminal calls)", Run: c03r2},
 			{ID: "C03.R3", Doc: "rawWriteLocked tests send and term before every WriteFrame; rawFlushLocked tests cancel, send, term before Flush", Run: c03r3},
@@ -41,7 +41,9 @@ func init() {
 			{ID: "C03.S1", Doc: "terminal calls take the stream's locks in one order", Alias: "C04.W2"},
 			{ID: "C03.R10", Doc: "terminal calls leave the stream in their target state on every way out: terminated after Close/SendError, send side closed (or terminated) after CloseSend", Run: c03r10},
 			{ID: "C03.R9", Doc: "inspectMutex: the held flag is written only while the embedded mutex is held (set after Lock, cleared before Unlock)", Run: c03r9},
-		},
+			{ID: "C03.R12", Doc: "idempotent terminal calls: the early way out taken because the stream is already terminated reports no error (SendError, SendCancel, Close, CloseSend)", Run: c03r12},
+			{ID: "C03.R11", Doc: "the held flag of the inspectable mutex follows the mutex: set after every acquisition (Lock, successful TryLock), cleared before the release, and Unlocked() reports exactly that flag", Run: c03r11},
+		}, disciplineRules("C03", "drpcstream")...),
 	})
 }
 
@@ -1064,4 +1066,165 @@ func c03r10(c *an.Ctx) {
 		}
 	}
 	c.Floor("ways out of the terminal calls", 1, n)
+}
+
+// c03r11: checkFinished relies on inspectMutex.Unlocked() to know that no
+// operation is in flight; the flag must follow the mutex on every path.
+func c03r11(c *an.Ctx) {
+	a := A(c)
+	held := a.field("drpcstream", "inspectMutex", "held")
+	isMutexCall := func(in ssa.Instruction, name string) bool {
+		ci, ok := in.(ssa.CallInstruction)
+		if !ok {
+			return false
+		}
+		f := ci.Common().StaticCallee()
+		return f != nil && f.Name() == name && f.Pkg != nil && f.Pkg.Pkg.Path() == "sync"
+	}
+	// stores to held: atomic.StoreUint32(&m.held, k) or a plain store
+	heldStore := func(in ssa.Instruction) (int64, bool) {
+		switch x := in.(type) {
+		case *ssa.Store:
+			if fv := an.PathOf(x.Addr).Last(); fv != nil && fv.Origin() == held.Origin() {
+				k, ok := an.ConstInt(x.Val)
+				return k, ok
+			}
+		case ssa.CallInstruction:
+			f := x.Common().StaticCallee()
+			if f != nil && f.Pkg != nil && f.Pkg.Pkg.Path() == "sync/atomic" && strings.HasPrefix(f.Name(), "Store") && len(x.Common().Args) == 2 {
+				if fv := an.PathOf(x.Common().Args[0]).Last(); fv != nil && fv.Origin() == held.Origin() {
+					k, ok := an.ConstInt(x.Common().Args[1])
+					return k, ok
+				}
+			}
+		}
+		return 0, false
+	}
+	n := 0
+	for _, fn := range must(c.P.SourceFuncs("drpcstream")) {
+		if fn.Signature.Recv() == nil || !strings.Contains(fn.Signature.Recv().Type().String(), "inspectMutex") {
+			continue
+		}
+		c.Analysed(fn)
+		var acquires, releases, sets, clears []ssa.Instruction
+		an.Instrs(fn, func(in ssa.Instruction) {
+			switch {
+			case isMutexCall(in, "Lock") || isMutexCall(in, "TryLock"):
+				acquires = append(acquires, in)
+			case isMutexCall(in, "Unlock"):
+				releases = append(releases, in)
+			}
+			if k, ok := heldStore(in); ok {
+				if k != 0 {
+					sets = append(sets, in)
+				} else {
+					clears = append(clears, in)
+				}
+			}
+		})
+		for _, acq := range acquires {
+			n++
+			// every return that reports the lock taken (any return for Lock, the true return for TryLock) is
+			// dominated by a set of the flag that follows the acquisition
+			ok := true
+			for _, ret := range an.Returns(fn) {
+				if !retReachable(fn, ret) {
+					continue
+				}
+				if len(ret.Results) == 1 {
+					if k, isK := ret.Results[0].(*ssa.Const); isK && k.Value != nil && k.Value.String() == "false" {
+						continue
+					}
+				}
+				if !an.CanReach(acq, ret) {
+					continue
+				}
+				dom := false
+				for _, st := range sets {
+					if an.InstrDominates(acq, st) && an.InstrDominates(st, ret) {
+						dom = true
+					}
+				}
+				if !dom {
+					ok = false
+				}
+			}
+			c.Check(ok, an.ShortFunc(fn)+" | the held flag is set after the mutex is taken, on every return that reports it taken", c.At(acq), "", "the mutex can be held with the flag clear: checkFinished sees an idle stream while an operation is in flight and finishes the stream underneath it")
+		}
+		for _, rel := range releases {
+			n++
+			ok := false
+			for _, st := range clears {
+				if an.InstrDominates(st, rel) {
+					ok = true
+				}
+			}
+			c.Check(ok, an.ShortFunc(fn)+" | the held flag is cleared before the mutex is released", c.At(rel), "", "the flag stays set after the release: the stream never looks idle and never finishes")
+		}
+	}
+	c.Floor("acquisitions and releases inside inspectMutex", 3, n)
+	un := c.Fn("drpcstream", "(*inspectMutex).Unlocked")
+	okUn := false
+	for _, ret := range an.Returns(un) {
+		if len(ret.Results) == 1 {
+			if cmp, ok := ret.Results[0].(*ssa.BinOp); ok && cmp.Op == token.EQL {
+				if k, isK := an.ConstInt(cmp.Y); isK && k == 0 {
+					v := cmp.X
+					if call, isCall := v.(*ssa.Call); isCall && len(call.Common().Args) == 1 {
+						if fv := an.PathOf(call.Common().Args[0]).Last(); fv != nil && fv.Origin() == held.Origin() {
+							okUn = true
+						}
+					}
+					if isLoadOfField(v, held) {
+						okUn = true
+					}
+				}
+			}
+		}
+	}
+	c.Check(okUn, "(*inspectMutex).Unlocked | reports held == 0", c.P.Pos(un.Pos()), "", "Unlocked no longer reports the held flag")
+}
+
+// c03r12: a terminal call on a stream that is already terminated is a no-op
+// that succeeds. The server calls SendError/CloseSend after every handler; an
+// error from them makes ServeOne give up the whole connection.
+func c03r12(c *an.Ctx) {
+	sa := streamA(c)
+	n := 0
+	for _, name := range []string{"SendError", "SendCancel", "Close", "CloseSend"} {
+		fn := c.Fn("drpcstream", "(*Stream)."+name)
+		c.Analysed(fn)
+		found, okNil := false, true
+		var at ssa.Instruction
+		for _, ret := range an.Returns(fn) {
+			if !retReachable(fn, ret) {
+				continue
+			}
+			// an early way out: no terminal packet was sent on the way here (the stream is already terminated or
+			// send-closed, or the call found the stream busy)
+			sent := false
+			for _, cs := range an.CallsTo(fn, false, sa.sendPkt) {
+				if an.CanReach(cs.Instr, ret) {
+					sent = true
+				}
+			}
+			if sent || len(ret.Results) == 0 {
+				continue
+			}
+			found = true
+			n++
+			for _, v := range returnedValues(ret, len(ret.Results)-1) {
+				if v != nil && !an.IsNilConst(v) {
+					okNil = false
+					at = ret
+				}
+			}
+		}
+		pos := c.P.Pos(fn.Pos())
+		if at != nil {
+			pos = c.At(at)
+		}
+		c.Check(found && okNil, "(*Stream)."+name+" | every way out that sends nothing (already terminated, busy) returns nil", pos, "", "the call reports an error for a stream that is already terminated (or has no such early way out): the server treats a failed SendError/CloseSend as a broken connection and closes it, taking the next RPC with it")
+	}
+	c.Floor("early returns of terminal calls", 4, n)
 }
